@@ -687,8 +687,10 @@ class Typestate:
     def __init__(self, on_stmt: Callable[[ast.AST, object, "Typestate"], Iterable[object]],
                  env: Optional[G.GuardEnv] = None, unroll_note: str = "fixpoint",
                  on_exception_edge: Optional[Callable[[ast.Try, object], Iterable[object]]] = None,
-                 may_raise: Optional[Callable[[ast.stmt], bool]] = None):
+                 may_raise: Optional[Callable[[ast.stmt], bool]] = None,
+                 on_iter: Optional[Callable[[ast.stmt, object], object]] = None):
         self.on_stmt = on_stmt
+        self.on_iter = on_iter
         self.env = env or G.GuardEnv()
         self.trace: Dict[Tuple[object, FrozenSet], Tuple[str, ...]] = {}
         self.cur_trace: Tuple[str, ...] = ()
@@ -848,6 +850,13 @@ class Typestate:
                 if is_for:
                     exit_states |= new           # iterable may be exhausted
                     ent = new
+                    if self.on_iter is not None:
+                        ent2 = set()
+                        for (rs, facts) in ent:
+                            ns = (self.on_iter(st, rs), facts)
+                            self._note(ns, (rs, facts), None)
+                            ent2.add(ns)
+                        ent = ent2
                 else:
                     if not infinite:
                         exit_states |= self._branch(new, st.test, False)
